@@ -481,6 +481,66 @@ func runC05(w *World, r *Report) {
 	// the rerun/sub-graph handler marks exactly the sub-graph tasks
 	skipMarkOnlySubGraphs(w, r, "C05.skip-prehandler")
 
+	// ---- task contexts are built from the run's context, never from the previous task's
+	r.Rule("C05.task-context-per-task", "the context a task is given (node key, forwarded checkpoint) is derived from the context of the run, not from a value carried round the loop that creates the tasks: a later task must not inherit the node path and the nested checkpoint of the task created before it", 2)
+	{
+		n := 0
+		for _, name := range []string{"runner.restoreTasks", "runner.createTasks"} {
+			fn := w.Fn("compose", name)
+			headers := map[*ssa.BasicBlock]bool{}
+			for _, li := range naturalLoops(fn) {
+				headers[li.header] = true
+			}
+			instrs(fn, func(in ssa.Instruction) {
+				c, ok := in.(*ssa.Call)
+				if !ok {
+					return
+				}
+				sc := staticCallee(c)
+				if sc == nil || !(sc.Name() == "setNodeKey" || sc.Name() == "forwardCheckPoint" || sc.Name() == "clearNodeKey") {
+					return
+				}
+				n++
+				carried := false
+				seen := map[ssa.Value]bool{}
+				var walk func(v ssa.Value, d int)
+				walk = func(v ssa.Value, d int) {
+					if v == nil || d > 8 || seen[v] {
+						return
+					}
+					seen[v] = true
+					switch x := v.(type) {
+					case *ssa.Phi:
+						if headers[x.Block()] {
+							carried = true
+						}
+						for _, e := range x.Edges {
+							walk(e, d+1)
+						}
+					case *ssa.Call:
+						if len(x.Call.Args) > 0 && x.Call.Args[0].Type().String() == "context.Context" {
+							walk(x.Call.Args[0], d+1)
+						}
+					case *ssa.UnOp:
+						if al, ok := x.X.(*ssa.Alloc); ok {
+							// a local cell: carried if it is stored to inside a loop and allocated outside it
+							for _, cell := range loopCarriedCells(fn) {
+								if cell == al {
+									carried = true
+								}
+							}
+						}
+					}
+				}
+				walk(c.Call.Args[0], 0)
+				r.Check(!carried, "C05.task-context-per-task", fmt.Sprintf("%s: %s call #%d starts from the run's context", w.fname(fn), sc.Name(), n), c.Pos(), "the context argument is not carried round the task loop", "the context handed on is the one built for the previous task of the loop: the second and later restored tasks get the previous task's node path and look for their nested checkpoint under it — an interrupted nested graph that is not first in map order finds none, restarts from scratch on its zero input and re-executes its completed nodes")
+			})
+		}
+		if n < 2 {
+			undecidedf("C05.task-context-per-task: only %d setNodeKey / forwardCheckPoint calls found", n)
+		}
+	}
+
 	// ---- nested-once
 	r.Rule("C05.nested-once", "forwardCheckPoint only from restoreTasks; fresh tasks carry a cleared checkpoint", 2)
 	for _, c := range w.staticCallers(fwd) {
